@@ -748,7 +748,7 @@ fn c25_o3_clear_edges_n0_extra() {
     clear_edges_case::<0>([], Some((any_stamp(), kani::any())));
 }
 
-// @verif prop=C25 obl=O3 tier=thorough bounds="all values of 1 edge; both derived kinds; symbolic stamp"
+// @verif prop=NONE obl=O3 tier=thorough bounds="PROBE (CBMC aborts above 32 GB): all values of 1 edge; both derived kinds; symbolic stamp"
 // @+ encodes="QueryRevisions::set_cycle_heads, OriginAndExtra::get_or_insert_extra, QueryRevisions::iteration, QueryRevisions::set_cycle_converged, QueryRevisions::cycle_converged, OriginAndExtra::derived (re-encoding from a decoded iterator)"
 /// C25-O3: inserting extra data into an origin that has none re-encodes it; edges, kind and layout rule survive.
 #[kani::proof]
